@@ -8,12 +8,12 @@ T = {
  "C02": (E2, "loom: all C11 executions of install/lookup on the real RecorderOnceCell source up to a preemption bound", "4.C02"),
  "C03": (E3+" + "+E1, "exhaustive pairs/triples over a key universe built through every construction path; all interleavings of first get_hash() calls", "4.C03"),
  "C04": (E2+" + "+E1+" + "+E3, "loom on atomics.rs + controlled-scheduler interleavings of real handles + exhaustive value/op enumeration", "4.C04"),
- "C05": (E1, "preemption-bounded exhaustive interleaving exploration of the real AtomicBucket (controlled scheduler, every atomic/epoch-pointer op a scheduling point)", "4.C05"),
+ "C05": (E1+" + "+E2, "preemption-bounded exhaustive interleaving exploration of the real AtomicBucket (controlled scheduler, every atomic/epoch-pointer op a scheduling point); loom (C11 memory model) on the same bucket.rs with crossbeam-epoch in its loom mode", "4.C05"),
  "C06": (E3+" + "+E1, "all operation sequences up to a depth on the real Registry vs a map reference; all interleavings of racing get_or_create/delete", "4.C06"),
  "C07": (E3+" + "+E1, "all register/update/describe/render/upkeep sequences up to a depth vs reference through an independent exposition parser; all interleavings of record vs render/upkeep", "4.C07"),
  "C08": (E3, "exhaustive strings up to a length over a nasty alphabet in every role, strict exposition-format parser as oracle", "4.C08"),
  "C09": (E3, "exhaustive configuration sweep x write/drain sequences on the real PayloadWriter, independent DogStatsD parser + accounting oracle", "4.C09"),
- "C10": (E1+" + "+E4, "all interleavings of updates with flushes on the real DogStatsD State; end-to-end framing over real sockets", "4.C10"),
+ "C10": (E1+" + "+E3+" + "+E4, "all interleavings of updates with flushes on the real DogStatsD State; all update/flush sequences up to a depth vs an exact reference; end-to-end framing over real sockets", "4.C10"),
  "C11": (E4, "enumeration of client/emit event histories and write answers (deviation-bounded) against the real transport thread with a quiescence barrier", "4.C11"),
  "C12": (E3, "all update/advance/observe sequences up to a depth with a mock clock on the real Recency + Registry, and via Prometheus render", "4.C12"),
  "C13": (E3, "exhaustive names x layer configurations on the real layers vs a reference written from the docs", "4.C13"),
@@ -54,15 +54,15 @@ commits = subprocess.run(["git", "-C", "/repo", "log", "--format=%h %s", "--grep
 m = {
  "version": 1,
  "setup_cmd": "./setup.sh",
- "hooks": {"guard": "--cfg metrics_verif (facade/driver hooks) and --cfg metrics_verif_loom (loom import twins; set only for the loom harness crate that #[path]-includes the files)",
-           "enable": "RUSTFLAGS='--cfg metrics_verif' cargo build --release in /verif/harness (path dependencies on /repo/*); /verif/loomh/build.rs emits cargo:rustc-cfg=metrics_verif_loom",
+ "hooks": {"guard": "--cfg metrics_verif (facade/driver hooks) and --cfg metrics_verif_loom (loom import twins; set only for the loom harness crates that #[path]-include the files; /verif/loomb additionally builds crossbeam-epoch/-utils with their own --cfg crossbeam_loom)",
+           "enable": "RUSTFLAGS='--cfg metrics_verif' cargo build --release in /verif/harness (path dependencies on /repo/*); /verif/loomh/build.rs and /verif/loomb/build.rs emit cargo:rustc-cfg=metrics_verif_loom",
            "baseline_off_cmd": "cd /repo && cargo test --workspace --no-fail-fast --offline",
            "source_commits": [c.split()[0] for c in commits if c],
            "add_only": True},
  "engines": [
   {"name": "E1 vsched", "path": "harness/src/vsched.rs", "serves_properties": ["C03","C04","C05","C06","C07","C10","C16","C19","C20"], "kind_free_text": "stateless model checking of the implementation: controlled scheduler over real OS threads, preemption-bounded DFS (iterative context bounding), replay + determinism validation"},
-  {"name": "E2 loom", "path": "loomh/", "serves_properties": ["C02","C04"], "kind_free_text": "loom 0.7.2 on the repository's own source files (#[path] include), C11 memory model, preemption bound or unbounded"},
-  {"name": "E3 vseq", "path": "harness/src/vseq.rs", "serves_properties": ["C01","C03","C04","C06","C07","C08","C09","C12","C13","C14","C15","C16","C17","C19"], "kind_free_text": "bounded exhaustive enumeration of operation sequences / inputs / configurations on fresh real objects against a reference model"},
+  {"name": "E2 loom", "path": "loomh/ (cell.rs, atomics.rs), loomb/ (bucket.rs + crossbeam-epoch in loom mode)", "serves_properties": ["C02","C04","C05"], "kind_free_text": "loom 0.7.2 on the repository's own source files (#[path] include), C11 memory model, preemption bound or unbounded"},
+  {"name": "E3 vseq", "path": "harness/src/vseq.rs", "serves_properties": ["C01","C03","C04","C06","C07","C08","C09","C10","C12","C13","C14","C15","C16","C17","C19"], "kind_free_text": "bounded exhaustive enumeration of operation sequences / inputs / configurations on fresh real objects against a reference model"},
   {"name": "E4 vio", "path": "harness/src/bin", "serves_properties": ["C10","C11","C18"], "kind_free_text": "enumeration of event histories and environment answers against real exporter threads over loopback sockets"},
  ],
  "checks": checks,
